@@ -11,7 +11,7 @@ RULE = ("every list of the stated spaces (every interleaving of lengths) is exec
         "{(i,j,h): i!=j, equal length, h = mismatches <= k}; non-trivial = expected set non-empty")
 ASSUMPTIONS = ["alphabet restricted to amino-acid letters (kdtree/hash_based only accept those)",
                "hash_based Hamming ball over 20 letters: k=3 only in the thorough tier on Lists(V,2)"]
-REQUIRED_CLASSES = {"all": ["mixed-lengths", "lengths-not-sorted", "indel-reachable-not-hamming", "duplicate-at-distance-0"]}
+REQUIRED_CLASSES = {"all": ["mixed-lengths", "lengths-not-sorted", "indel-reachable-not-hamming", "duplicate-at-distance-0", "long-strings>=127"]}
 MIN_OUTCOMES = 10
 
 V = E.universe("AC", 3, minlen=1)   # 14 strings of length 1..3
@@ -39,7 +39,12 @@ def spaces(tier):
                     for eng in ("symdel", "kdtree", "symdel2") + (("hash_based",) if k == 1 or (k == 2 and not q) else ()):
                         yield ("uni", alpha, L, order, k, eng)
 
+    def gen_long():
+        for n in (127, 128, 255, 256, 257, 300):
+            yield ("long", n)
+
     return [
+        Space("long-string-boundary-family", gen_long, "equal-length neighbours and near-misses of length 127..300 mixed with short strings: x^n, x^(n-1)y, yx^(n-1), x^(n-2)yy, x^(n+1), x^(n-1); all engines, k in 1..2 (hash_based k=1)", per_case=True),
         Space("all-length-interleavings", gen_lists, "Lists(V,4) quick / Lists(V,5) thorough, V = 14 strings of length 1..3 over {A,C}; k in 1..3; nearest_neighbor, symdel, symdel(seqs2=self), kdtree", shards=64),
         Space("all-length-interleavings-hash_based", gen_lists_hash, "Lists(V,3) x k in 1..2 (thorough: Lists(V,2) x k=3) on hash_based"),
         Space("mixed-length-universe", gen_uni, "U(ACD,5) quick / U(ACD,6),U(ACDE,5) thorough as one list in sorted, reversed and length-interleaved order", per_case=True),
@@ -126,6 +131,14 @@ def check_case(case, acc):
         _, seqs, k, eng = case
         expected = neighbors_within(list(seqs), k, dist="hamming")
         compare(acc, case, eng, seqs, k, run(acc, eng, seqs, k), expected, True)
+    elif kind == "long":
+        n = case[1]
+        acc.cls("long-strings>=127")
+        seqs = ["A" * n, "CAC", "A" * (n - 1) + "C", "C" + "A" * (n - 1), "A" * (n - 2) + "CC", "A" * (n + 1), "A" * (n - 1), "CAA", "A" * n]
+        for k in (1, 2):
+            expected = neighbors_within(seqs, k, dist="hamming")
+            for eng in ("nearest_neighbor", "symdel", "symdel2", "kdtree") + (("hash_based",) if k == 1 else ()):
+                compare(acc, case, eng, seqs, k, run(acc, eng, seqs, k), expected, True)
     elif kind == "uni":
         _, alpha, L, order, k, eng = case
         seqs = order_universe(E.universe(alpha, L), order)
